@@ -286,7 +286,7 @@ class CodeGenerator(nunavut._generators.AbstractGenerator):
     ) -> None:
         newline_pattern = re.compile(r"\n|\r\n", flags=re.MULTILINE)
         line_buffer = io.StringIO()
-        for part in template_gen:
+        for part in _join_split_line_endings(template_gen):
             search_pos = 0  # type: int
             match_obj = newline_pattern.search(part, search_pos)
             while True:
@@ -1004,3 +1004,26 @@ class SupportGenerator(CodeGenerator):
                         resource_line_tuple = line_pp(resource_line_tuple)
                     target_file.write(resource_line_tuple[0])
                     target_file.write(resource_line_tuple[1])
+
+
+# +---------------------------------------------------------------------------+
+# | PRIVATE HELPERS
+# +---------------------------------------------------------------------------+
+
+
+def _join_split_line_endings(parts: typing.Iterable[str]) -> typing.Generator[str, None, None]:
+    """
+    Re-chunk a stream of text parts so that no part ends between the two characters of a CRLF line ending.
+    The template engine is free to split its output anywhere; a line-oriented consumer must see the same
+    lines however the text was split.
+    """
+    pending_cr = False
+    for part in parts:
+        if pending_cr:
+            part = "\r" + part
+        pending_cr = part.endswith("\r")
+        if pending_cr:
+            part = part[:-1]
+        yield part
+    if pending_cr:
+        yield "\r"
